@@ -27,7 +27,12 @@ def paper_compare(ctx, case, xs, spec, cols=None):
     m = len(p)
     left_outer = False
     ncomp = len(cols) if cols else 1
+    trips = {}
+    for i, kind in case.get('roundtrip') or []:
+        trips.setdefault(i, []).append(kind)
     for i in range(len(xs)):
+        for kind in trips.get(i, []):
+            est = p2lib.roundtrip(est, kind)
         pres = [p2lib.state(est, c if cols else None) for c in range(ncomp)]
         est.accumulate(np.array([cols[c][i] for c in range(ncomp)], dtype=float) if cols else xs[i])
         for c in range(ncomp):
@@ -150,12 +155,13 @@ def check(ctx):
         fam = rng.choice(p2lib.FAMILIES)
         n = rng.choice([6, 12, 25, 60, 120] if ctx.quick else [6, 12, 25, 60, 150, 400, 1000])
         xs = p2lib.gen_seq(rng, n, fam)
-        case = dict(spec=spec, family=fam, n=n, shape=[], cols=[xs])
+        trips = p2lib.gen_roundtrips(rng, n)
+        case = dict(spec=spec, family=fam, n=n, shape=[], cols=[xs], roundtrip=trips)
         sm = c07.small(case)
         cols = None
         if rng.random() < 0.3:
             cols = [xs] + [p2lib.gen_seq(rng, n, rng.choice(p2lib.FAMILIES)) for _ in range(rng.choice([1, 2]))]
-            case = dict(spec=spec, family=fam, n=n, shape=[len(cols)], cols=cols)
+            case = dict(spec=spec, family=fam, n=n, shape=[len(cols)], cols=cols, roundtrip=trips)
             sm = c07.small(case)
             ctx.count('array_observations')
         left = paper_compare(ctx, sm, xs, spec, cols)
@@ -180,7 +186,8 @@ def replay(ctx, data):
         grid_cases(ctx)
         return
     if any(isinstance(t, str) for t in case['cols'][0]):
-        raise core.InfraError('replay needs the full sequence: rerun the check with the recorded seed')
+        check(ctx)       # the sequence was cut short in the file: regenerate everything under the recorded seed and tier
+        return
     paper_compare(ctx, case, case['cols'][0], case['spec'])
     ctx.case(('replay', case['spec']), True, sample=case)
 
